@@ -1310,13 +1310,47 @@ def is_reiterable_iterable(x: Any) -> bool:
 T_concat = TypeVar("T_concat")
 
 
+class _ConcatIterator(Iterator[T_concat]):
+    """Iterator over the elements of each of the seqs in turn.
+
+    A part is only considered done once it was coerced to a seq without error, so
+    an exception raised while the first element of a part is produced propagates to
+    the consumer and leaves the iterator on that part: consuming the concatenation
+    again retries it. (A chain of `map` and `filter` would have moved on to the
+    next part, silently dropping every element of the part that failed.)"""
+
+    __slots__ = ("_parts", "_part", "_elems")
+
+    _NO_PART = object()
+
+    def __init__(self, seqs: Iterable[Iterable[T_concat] | None]) -> None:
+        self._parts = iter(seqs)
+        self._part: Any = self._NO_PART
+        self._elems: Iterator[T_concat] | None = None
+
+    def __iter__(self):
+        return self
+
+    def __next__(self) -> T_concat:
+        while True:
+            if self._elems is not None:
+                try:
+                    return next(self._elems)
+                except StopIteration:
+                    self._elems = None
+            if self._part is self._NO_PART:
+                self._part = next(self._parts)
+            s = to_seq(self._part)
+            self._part = self._NO_PART
+            if s is not None:
+                self._elems = iter(s)
+
+
 def concat_from_seq(seqs: Iterable[Iterable[T_concat] | None] | None) -> ISeq[T_concat]:
     """Given a seq of seqs, return a flat seq."""
     if seqs is None:
         return lseq.LazySeq(lambda: None)
-    return lseq.iterator_sequence(
-        itertools.chain.from_iterable(filter(None, map(to_seq, seqs)))
-    )
+    return lseq.iterator_sequence(_ConcatIterator(seqs))
 
 
 def concat(*seqs: Iterable[T_concat] | None) -> ISeq[T_concat]:
